@@ -23,6 +23,7 @@ class ProofItem:
     bounds: dict | None = None
     bounded_only: bool = False  # function outside the engine's subset: contract checked on the bounded rung only
     why_bounded: str = ""
+    thorough_only: bool = False  # the proof takes long: obligations are discharged in the thorough tier only
 
 
 @dataclass
@@ -98,12 +99,15 @@ def _proof_worker(arg):
     reg = mod.registry()
     out = {"function": it.contract.name, "qualname": it.contract.qualname}
     try:
-        if it.bounded_only:
+        skip_proof = it.bounded_only or (it.thorough_only and tier == "quick")
+        if skip_proof:
+            why = it.why_bounded if it.bounded_only else \
+                "slow proof: the obligations of this function are discharged in the thorough tier only"
             out["proof"] = {"function": it.contract.name, "qualname": it.contract.qualname, "rung": "bounded-only",
-                            "reason": it.why_bounded, "obligations": 0, "discharged": 0, "refuted": [], "unknown": [],
+                            "reason": why, "obligations": 0, "discharged": 0, "refuted": [], "unknown": [],
                             "solver_s": 0.0}
         out["bounded"] = proof.bounded_contract(it.contract, tier, sd, it.gen, it.call, it.bounds)
-        if not it.bounded_only:
+        if not skip_proof:
             out["proof"] = proof.prove_contract(it.contract, reg, tier, it.call,
                                                 hurry=bool(out["bounded"]["failures"]))
         for f in out["bounded"]["failures"]:
